@@ -9,7 +9,11 @@ import vp
 IDS = ["heroku/nodejs", "a/b", "x", "some.id/with-dash", "vp/n0", "deep/er/id", "a/b/", "x/", "a/b.c", "a/b-"]      # "a/b/" and "a/b" are different, valid ids
 OTHER_URIS = ["docker://docker.io/heroku/procfile-cnb:2.0.1", "docker://REGISTRY.Example.com:5000/Img@sha256:0123abcd",
               "https://example.com/bp.tgz?q=1&x=y#frag", "http://h/p", "HTTPS://Example.COM/Mixed/Case", "urn:cnb:registry:heroku/nodejs@1.2.3",
-              "file:///abs/path/bp.cnb", "docker:/single-slash", "urn:cnb:builder:one"]
+              "file:///abs/path/bp.cnb", "docker:/single-slash", "urn:cnb:builder:one",
+              # spellings a URI normaliser would change: dot segments, percent-encoded unreserved characters, host case, default port
+              "https://example.com/a/../b/./c.cnb", "https://EXAMPLE.com/%7Euser/%41.cnb", "docker://Docker.IO:443/Heroku/x//y",
+              # authority only, empty path
+              "https://example.com:8443", "http://h"]
 ABS_PATHS = ["/abs/path", "/abs/../dots/./kept", "/trailing/", "/", "/a//b", "/x/y/../../../z"]
 LOCS = ["src", "a-b/x.y", "deep/er/still/more", "composite_1", "m"]
 SEGS = [".", "..", "a", "b-c", "d.e", "", "..", "x_y", "~t", "1"]
@@ -129,6 +133,10 @@ def run_case(mon, base, case, sh):
             for i, (g, w) in enumerate(zip(got_deps, want_deps)):
                 if g != w and ":" in w and g == w.split(":", 1)[0].lower() + ":" + w.split(":", 1)[1]:
                     sh.violation("deps:scheme-lowercased", "URI %r is not copied verbatim: its scheme is written in lower case (%r)" % (w, g), case)
+                    want_deps[i] = g
+                # empty path after an authority: uriparse reads it as "/" (the second listed finding, same root cause)
+                elif g != w and g == w + "/" and "://" in w and "/" not in w.split("://", 1)[1]:
+                    sh.violation("deps:empty-path-slash", "URI %r is not copied verbatim: a '/' is appended to its empty path (%r)" % (w, g), case)
                     want_deps[i] = g
         if got_deps != want_deps:
             n = next((i for i in range(min(len(got_deps), len(want_deps))) if got_deps[i] != want_deps[i]), min(len(got_deps), len(want_deps)))
